@@ -62,7 +62,7 @@ func TestProp(t *testing.T) {
 		return true
 	})
 	if ok {
-		rec.Exhaustive(fmt.Sprintf("family A: 2^6 presence patterns x 5 value types (bool in both polarities) x 7 Fill kinds/addressings x 5 read positions x decoy on/off x 2 constructors (%d cases including those excluded by open known findings)", n))
+		rec.Exhaustive(fmt.Sprintf("family A (%s): 2^6 presence patterns x 5 value types (bool in both polarities) x 9 Fill kinds/addressings x 5 read positions x %s; plus zero-value, null-winner, function-named-key and data-file-name variants (%d cases including those excluded by open known findings)", run.Tier(), run.Pick("{missing sources + NewFS, decoy sources + New(WithFS)}", "decoy on/off x 2 constructors"), n))
 	}
 
 	// ---- Family B: histories on a template tree
